@@ -28,10 +28,13 @@ func TestMain(m *testing.M) {
 
 type batchCase struct {
 	Scripts []tsgen.Script `json:"scripts"`
-	Mode    string         `json:"mode"` // default | testwork | workdirroot
-	Cover   bool           `json:"gocoverdir"`
-	Race    bool           `json:"gorace"`
-	P       tsmodel.Params `json:"params"`
+	// FileNames optionally gives the script file of each script relative to the script directory (without .txt),
+	// e.g. "a/job", "b/job", "c/job#1": equal base names make RunT invent distinct subtest names.
+	FileNames []string       `json:"file_names,omitempty"`
+	Mode      string         `json:"mode"` // default | testwork | workdirroot
+	Cover     bool           `json:"gocoverdir"`
+	Race      bool           `json:"gorace"`
+	P         tsmodel.Params `json:"params"`
 }
 
 var envMu sync.Mutex
@@ -136,8 +139,14 @@ func checkBatch(c batchCase) *vt.Fail {
 		opts.Retain = true
 	}
 	var files []tskit.ScriptFile
+	usedFile := map[string]bool{}
 	for i, s := range c.Scripts {
-		files = append(files, tskit.ScriptFile{Name: fmt.Sprintf("s%d", i), Data: s.Bytes()})
+		fn := fmt.Sprintf("s%d", i)
+		if i < len(c.FileNames) && validFileName(c.FileNames[i]) && !usedFile[c.FileNames[i]] {
+			fn = c.FileNames[i]
+		}
+		usedFile[fn] = true
+		files = append(files, tskit.ScriptFile{Name: fn, Data: s.Bytes()})
 	}
 	rr := tskit.RunInProcess(root, files, opts)
 	if rr.Elapsed > 30*time.Second {
@@ -147,9 +156,13 @@ func checkBatch(c batchCase) *vt.Fail {
 	if rr.Top.Verdict != "pass" || len(rr.Subs) != len(c.Scripts) {
 		return vt.Failf("runt-top-level", "RunT ended with %s (%s %s), %d subtests for %d scripts", rr.Top.Verdict, rr.Top.Log, rr.Top.Panic, len(rr.Subs), len(c.Scripts))
 	}
-	byName := map[string]*tskit.SubResult{}
+	// subtests are started in file order; their names are chosen by RunT and must be pairwise distinct
+	subNames := map[string]bool{}
 	for _, s := range rr.Subs {
-		byName[s.Name] = s
+		if subNames[s.Name] {
+			return vt.Failf("script-names-not-unique", "two scripts of one RunT call were given the same name %q (they would share a work directory)", s.Name)
+		}
+		subNames[s.Name] = true
 	}
 	// ---- (5) nothing left behind ----
 	ents, _ := os.ReadDir(gotmp)
@@ -178,8 +191,8 @@ func checkBatch(c batchCase) *vt.Fail {
 			got = append(got, e.Name())
 		}
 		var want []string
-		for _, n := range names(c) {
-			want = append(want, "script-"+n)
+		for _, s := range rr.Subs {
+			want = append(want, "script-"+s.Name)
 		}
 		sort.Strings(got)
 		sort.Strings(want)
@@ -196,8 +209,8 @@ func checkBatch(c batchCase) *vt.Fail {
 			got = append(got, e.Name())
 		}
 		var want []string
-		for _, n := range names(c) {
-			want = append(want, "script-"+n)
+		for _, s := range rr.Subs {
+			want = append(want, "script-"+s.Name)
 		}
 		sort.Strings(got)
 		sort.Strings(want)
@@ -230,11 +243,8 @@ func checkBatch(c batchCase) *vt.Fail {
 	// ---- per script: same result as alone, fresh start ----
 	relUse := map[string]int{}
 	for i, s := range c.Scripts {
-		name := fmt.Sprintf("s%d", i)
-		sub := byName[name]
-		if sub == nil {
-			return vt.Failf("runt-top-level", "no result for %s", name)
-		}
+		sub := rr.Subs[i]
+		name := sub.Name
 		std := r.Std[name]
 		work := ""
 		var dump map[string]string
@@ -375,6 +385,13 @@ func trunc(s string, n int) string {
 	return s
 }
 
+func validFileName(n string) bool {
+	if n == "" || strings.HasPrefix(n, "/") || strings.Contains(n, "..") || strings.ContainsAny(n, " \t\n$'") {
+		return false
+	}
+	return true
+}
+
 func pidDir() string {
 	d := filepath.Join(os.TempDir(), fmt.Sprintf("c04pids-%d", os.Getpid()))
 	if s := os.Getenv("VERIF_SCRATCH"); s != "" {
@@ -405,6 +422,13 @@ func genBatch(t *rapid.T) batchCase {
 			continue
 		}
 		c.Scripts = append(c.Scripts, tsgen.Gen(t, o))
+	}
+	if rapid.IntRange(0, 2).Draw(t, "samebase") == 0 {
+		// scripts in different directories with equal (or counter-like) base names
+		bases := []string{"job", "job#1", "job", "x", "job#1#1", "job#2"}
+		for i := range c.Scripts {
+			c.FileNames = append(c.FileNames, fmt.Sprintf("d%d/%s", i, rapid.SampledFrom(bases).Draw(t, "base")))
+		}
 	}
 	return c
 }
